@@ -271,8 +271,9 @@ class _OsProxy:
 
     def open(self, path: Any, flags: int, mode: int = 0o777, *, dir_fd: Any = None) -> int:
         self._t.durability_call("open", self._m, path, os.path.isdir(path))
-        fd = os.open(path, flags, mode) if dir_fd is None else os.open(path, flags, mode, dir_fd=dir_fd)
-        self._t.on_open(fd, path, flags)
+        with self._t.lock:       # descriptor numbers are reused across threads: number -> path must change atomically
+            fd = os.open(path, flags, mode) if dir_fd is None else os.open(path, flags, mode, dir_fd=dir_fd)
+            self._t.on_open(fd, path, flags)
         return fd
 
     def write(self, fd: int, data: Any) -> int:
@@ -325,8 +326,9 @@ class _OsProxy:
         self._t.on_fsync(fd)
 
     def close(self, fd: int) -> None:
-        os.close(fd)
-        self._t.fds.pop(fd, None)
+        with self._t.lock:
+            self._t.fds.pop(fd, None)
+            os.close(fd)
 
     def replace(self, a: Any, b: Any, **kw: Any) -> None:
         self._t.durability_call("rename", self._m, b)
@@ -399,16 +401,18 @@ class _TempfileProxy:
 
     def mkstemp(self, *a: Any, **kw: Any) -> Tuple[int, str]:
         self._t.durability_call("create", self._m, os.path.join(kw.get("dir") or ".", "<temp>" + str(kw.get("suffix") or "")))
-        fd, path = tempfile.mkstemp(*a, **kw)
-        self._t.on_open(fd, path, os.O_RDWR | os.O_CREAT | os.O_EXCL)
+        with self._t.lock:
+            fd, path = tempfile.mkstemp(*a, **kw)
+            self._t.on_open(fd, path, os.O_RDWR | os.O_CREAT | os.O_EXCL)
         return fd, path
 
     def NamedTemporaryFile(self, *a: Any, **kw: Any) -> Any:
         self._t.durability_call("create", self._m, os.path.join(kw.get("dir") or ".", "<temp>" + str(kw.get("suffix") or "")))
-        f = tempfile.NamedTemporaryFile(*a, **kw)
-        if kw.get("delete", True):
-            self._t.emit(op="other", call="NamedTemporaryFile(delete=True)", path=self._t._abs(f.name))
-        self._t.on_open(f.fileno(), f.name, os.O_RDWR | os.O_CREAT | os.O_EXCL)
+        with self._t.lock:
+            f = tempfile.NamedTemporaryFile(*a, **kw)
+            if kw.get("delete", True):
+                self._t.emit(op="other", call="NamedTemporaryFile(delete=True)", path=self._t._abs(f.name))
+            self._t.on_open(f.fileno(), f.name, os.O_RDWR | os.O_CREAT | os.O_EXCL)
         return f
 
 
